@@ -30,6 +30,7 @@ import (
 	"github.com/canopy-network/canopy/fsm"
 	"github.com/canopy-network/canopy/lib"
 	"github.com/canopy-network/canopy/lib/crypto"
+	"github.com/canopy-network/canopy/store"
 
 	"verifharness/c07lib"
 	"verifharness/env"
@@ -67,6 +68,19 @@ func keyIndexForPub(pub []byte) int {
 	return -1
 }
 
+// nonSignersFor returns 1 if the Chain2 committee minus its last member still reaches the +2/3 threshold, else 0.
+func nonSignersFor(c *env.Chain) int {
+	vs, err := c.FSM.LoadCommittee(c07lib.Chain2, c.Height())
+	if err != nil || len(vs.ValidatorSet.ValidatorSet) < 2 {
+		return 0
+	}
+	m := vs.ValidatorSet.ValidatorSet
+	if vs.TotalPower-m[len(m)-1].VotingPower >= vs.MinimumMaj23 {
+		return 1
+	}
+	return 0
+}
+
 func lastChain2Height(c *env.Chain) uint64 {
 	d, err := c.FSM.GetCommitteeData(c07lib.Chain2)
 	if err != nil || d == nil {
@@ -82,7 +96,7 @@ func applyRecipe(c *env.Chain, r int) error {
 	switch r {
 	case 0:
 	case 1:
-		tx, err := c07lib.CertResultsTx(c, c07lib.CertSpec{ChainHeight: lastChain2Height(c) + 1, RootHeight: h, Proposer: 0, NonSigners: 1, RewardTo: 5,
+		tx, err := c07lib.CertResultsTx(c, c07lib.CertSpec{ChainHeight: lastChain2Height(c) + 1, RootHeight: h, Proposer: 0, NonSigners: nonSignersFor(c), RewardTo: 5,
 			DoubleSigners: []*lib.DoubleSigner{{Id: env.BLS(2).PublicKey().Bytes(), Heights: []uint64{h*100 + 50}}},
 			Checkpoint:    &lib.Checkpoint{Height: h*1000 + 1, BlockHash: crypto.Hash([]byte("cp"))}}, h, tstamp(h, 91, 0))
 		if err != nil {
@@ -138,6 +152,9 @@ func applyRecipe(c *env.Chain, r int) error {
 }
 
 func buildState(cfg config, path []int) (*env.Chain, error) {
+	// store.blockCache is process-wide and keyed by height only: a worker that ran another chain before
+	// would serve that chain's blocks for heights this chain has not committed yet
+	store.VerifC09PurgeBlockCache()
 	c, err := env.NewChain(c07lib.Genesis(cfg.sizeExtra))
 	if err != nil {
 		return nil, err
@@ -169,6 +186,9 @@ type world struct {
 	lastC2  uint64
 	replay  []byte
 	maxSize uint64
+	// number of committee-2 members (from the end of the set) that do not sign nested-chain certificates:
+	// 1 when the rest still holds +2/3 of the power, else 0
+	nonSigners int
 }
 
 func newWorld(c *env.Chain) (*world, error) {
@@ -188,6 +208,7 @@ func newWorld(c *env.Chain) (*world, error) {
 		return nil, err
 	}
 	w.maxSize = ms
+	w.nonSigners = nonSignersFor(c)
 	return w, nil
 }
 
@@ -199,7 +220,7 @@ func (w *world) cert(pos int, bad bool, t uint64) []byte {
 		ds = append(ds, &lib.DoubleSigner{Id: env.BLS(2).PublicKey().Bytes(), Heights: []uint64{w.h*100 + uint64(pos)}})
 		cpH += 500
 	}
-	tx, err := c07lib.CertResultsTx(w.c, c07lib.CertSpec{ChainHeight: w.lastC2 + 1 + uint64(pos), RootHeight: w.h, Proposer: 0, NonSigners: 1, RewardTo: 5,
+	tx, err := c07lib.CertResultsTx(w.c, c07lib.CertSpec{ChainHeight: w.lastC2 + 1 + uint64(pos), RootHeight: w.h, Proposer: 0, NonSigners: w.nonSigners, RewardTo: 5,
 		DoubleSigners: ds, Checkpoint: &lib.Checkpoint{Height: cpH, BlockHash: crypto.Hash([]byte{byte(pos)})}}, w.h, t)
 	if err != nil {
 		panic(err)
@@ -208,7 +229,9 @@ func (w *world) cert(pos int, bad bool, t uint64) []byte {
 }
 
 var templates = []tmpl{
-	{name: "send", build: func(w *world, occ, pos int) []byte { return c07lib.Send(4, 5, 1000+uint64(occ), w.h, tstamp(w.h, 0, occ)) }},
+	{name: "send", build: func(w *world, occ, pos int) []byte {
+		return c07lib.Send(4, 5, 1000+uint64(occ), w.h, tstamp(w.h, 0, occ))
+	}},
 	{name: "cert2", build: func(w *world, occ, pos int) []byte { return w.cert(pos, false, tstamp(w.h, 1, pos)) }},
 	{name: "stake", build: func(w *world, occ, pos int) []byte {
 		return c07lib.Stake(10+3*int(w.h)+occ, 500_000, []uint64{c07lib.Chain2}, w.h, tstamp(w.h, 2, occ))
@@ -477,6 +500,8 @@ func handle(j Job) (res Result) {
 		return o2Job(j)
 	case "fp":
 		return fpJob(j)
+	case "o3":
+		return o3Job(j)
 	}
 	return Result{Err: "unknown job kind"}
 }
@@ -1050,8 +1075,10 @@ func o2Job(j Job) (res Result) {
 		}
 		if blk, e := c.Store.GetBlockByHeight(h); e == nil && blk != nil && blk.BlockHeader != nil && blk.BlockHeader.Height == h {
 			if cs.abort == "index-block" {
-				// a failing Commit is not a validation stage; reported as a note, see final report
-				res.Notes = append(res.Notes, "after an abort between IndexBlock and Commit the process-wide block cache still serves the uncommitted block at that height")
+				// a failing Commit is not a validation stage; reported as a note, see final report. The cache is purged so
+				// that the remaining cases are not affected (at height 1 LoadBlock(0) reads height 1, i.e. this entry).
+				res.Notes = append(res.Notes, "after an abort between IndexBlock and Commit (only reachable when store.Commit fails) the process-wide block cache still serves the uncommitted block at that height")
+				store.VerifC09PurgeBlockCache()
 			} else {
 				viol("C07:rejection:block-readable:"+cs.stage, where+": a block is readable at the rejected height", cs.name)
 			}
@@ -1121,7 +1148,9 @@ func main() {
 	totalStates := 0
 	for _, cn := range cfgNames {
 		bs := mc.ReplayBFS(mc.BFSConfig{Tag: cn, NumOps: len(recipeNames), MaxDepth: maxDepth, Pool: pool, OnViol: r.OnViol, Stop: r.Expired,
-			OnState: func(path []int, _ *mc.ExecResult) { states = append(states, st{cn, append([]int{}, path...), len(path)}) }})
+			OnState: func(path []int, _ *mc.ExecResult) {
+				states = append(states, st{cn, append([]int{}, path...), len(path)})
+			}})
 		totalStates += bs.States
 		cov["bfs_"+cn] = map[string]any{"states": bs.States, "frontier_per_depth": bs.Frontier, "disabled": bs.Disabled, "revisits": bs.Revisits, "complete": bs.Complete}
 		fmt.Printf("recipe BFS cfg=%s depth<=%d: states=%d frontier=%v disabled=%d revisits=%d complete=%v\n", cn, maxDepth, bs.States, bs.Frontier, bs.Disabled, bs.Revisits, bs.Complete)
@@ -1144,6 +1173,9 @@ func main() {
 			continue
 		}
 		jobs = append(jobs, Job{Kind: "o2", Cfg: s.cfg, Path: s.path})
+		if s.cfg == "std" && (!r.Quick() || s.depth <= 1) {
+			jobs = append(jobs, Job{Kind: "o3", Cfg: s.cfg, Path: s.path})
+		}
 		for f := range templates {
 			jobs = append(jobs, Job{Kind: "o1", Cfg: s.cfg, Path: s.path, First: f, MaxLen: maxLen})
 		}
@@ -1152,6 +1184,8 @@ func main() {
 	results, crashed := mc.Map[Job, Result](pool, jobs, r.Expired)
 	var blocks, withFail, withOver, failingTxs, replicaRuns, commits, rejections, done, distinct int
 	stages := map[string]int{}
+	nodeStages := map[string]int{}
+	nodeRej := 0
 	accepted := map[string]int{}
 	statesDone := map[string]bool{}
 	notes := map[string]bool{}
@@ -1178,11 +1212,18 @@ func main() {
 		failingTxs += res.FailingTxs
 		replicaRuns += res.ReplicaRuns
 		commits += res.Commits
-		rejections += res.Rejections
-		distinct += res.DistinctPost
-		for k, v := range res.RejStages {
-			stages[k] += v
+		if jobs[i].Kind == "o3" {
+			nodeRej += res.Rejections
+			for k, v := range res.RejStages {
+				nodeStages[k] += v
+			}
+		} else {
+			rejections += res.Rejections
+			for k, v := range res.RejStages {
+				stages[k] += v
+			}
 		}
+		distinct += res.DistinctPost
 		for _, a := range res.Accepted {
 			accepted[a]++
 		}
@@ -1211,14 +1252,17 @@ func main() {
 	}
 	fmt.Printf("O1: %d blocks with dropped transactions (%d with failing txs, %d with size-excluded txs; %d failing txs in total) on %d states; %d replica-path reference runs; %d commits; %d distinct post-states\n",
 		blocks, withFail, withOver, failingTxs, len(statesDone), replicaRuns, commits, distinct)
-	fmt.Printf("O2: %d rejections by stage %v; accepted (not rejections) %v\n", rejections, stages, accepted)
+	fmt.Printf("O2 (direct path): %d rejections by stage %v; accepted (not rejections) %v\n", rejections, stages, accepted)
+	fmt.Printf("O3 (controller.ValidateProposal / HandlePeerBlock on real controller nodes): %d rejections by path:stage %v\n", nodeRej, nodeStages)
 	var tnames []map[string]string
 	for _, t := range templates {
 		tnames = append(tnames, map[string]string{"name": t.name, "fails": t.fail, "intended_point": t.where})
 	}
 	cov["states"] = totalStates
-	cov["transitions"] = blocks + rejections
-	cov["traces_validated_against_impl"] = blocks + rejections
+	cov["transitions"] = blocks + rejections + nodeRej
+	cov["traces_validated_against_impl"] = blocks + rejections + nodeRej
+	cov["o3_controller_rejections"] = nodeRej
+	cov["o3_controller_rejections_by_path_stage"] = nodeStages
 	cov["explanation"] = "states = distinct chain states of the recipe BFS (both block-size configurations); a transition = one whole block executed by canopy on such a state (proposer-path block with dropped transactions, or rejected replica block); every one is compared with canopy's own run of the reduced block / with the pre-call dumps"
 	cov["o1_blocks"] = blocks
 	cov["o1_blocks_with_failing_tx"] = withFail
@@ -1249,6 +1293,8 @@ func doReplay(r *mc.Run) {
 		var res Result
 		if a.Kind == "o2" {
 			res = o2Job(Job{Kind: "o2", Cfg: a.Cfg, Path: a.Path})
+		} else if a.Kind == "o3" {
+			res = o3Job(Job{Kind: "o3", Cfg: a.Cfg, Path: a.Path})
 		} else {
 			res = o1Job(Job{Kind: "o1", Cfg: a.Cfg, Path: a.Path, Seq: a.Seq, MaxLen: 3})
 		}
